@@ -257,7 +257,7 @@ def name_structs(structs, prefix="S"):
     for i, s in enumerate(structs):
         s.name = f"{prefix}{i}"
         # fields may be shared between structs by the enumerators: give every struct its own copies
-        s.fields = [dataclasses.replace(f, name=f"f{j}") for j, f in enumerate(s.fields)]
+        s.fields = [dataclasses.replace(f, name=(f.name if (f.name and getattr(s, "keep_names", False)) else f"f{j}")) for j, f in enumerate(s.fields)]
     return structs
 
 
